@@ -459,6 +459,20 @@ impl Run {
                 cmp
             }
         };
+        // kinds from 192 up: the cell itself (or a unary operator on it) is
+        // the condition; the lower kinds keep their meaning so that stored
+        // regress cases still say what they said
+        if seed.kind >= 192 {
+            return Some(match (seed.kind - 192) % 8 {
+                0 | 1 => col(c1),
+                2 => E::un(Un::Neg, E::un(Un::Neg, col(c1))),
+                3 => E::un(Un::BitNot, E::un(Un::BitNot, col(c1))),
+                4 => E::un(Un::Not, col(c1)),
+                5 => E::bin(Bin::And, col(c1), E::bin(Bin::Ne, col(c2), l2)),
+                6 => E::bin(Bin::Or, col(c1), E::bin(Bin::Eq, col(c2), l2)),
+                _ => E::bin(Bin::Add, col(c1), l1),
+            });
+        }
         Some(match seed.kind % 12 {
             0 | 1 => return None,
             2 | 3 => E::bin(Bin::Eq, col(c1), l1),
@@ -820,7 +834,11 @@ impl Run {
                 let trace = self.trace_text();
                 {
                     let mut w = self.pkg().write_stream(&sname).map_err(|e| io_fail(p, "WriteStream", &trace, e))?;
-                    w.write_all(&data).map_err(|e| io_fail(p, "WriteStream", &trace, e))?;
+                    let mut at = 0;
+                    for piece in piece_lengths(data.len(), *fill) {
+                        w.write_all(&data[at..at + piece]).map_err(|e| io_fail(p, "WriteStream", &trace, e))?;
+                        at += piece;
+                    }
                     w.flush().map_err(|e| io_fail(p, "WriteStream", &trace, e))?;
                 }
                 self.model.streams.insert(sname, data);
@@ -1031,6 +1049,49 @@ pub fn val_seed() -> impl Strategy<Value = ValSeed> {
 pub fn col_seed() -> impl Strategy<Value = ColSeed> {
     (any::<u8>(), any::<u8>(), any::<bool>(), prop::bool::weighted(0.2), prop::bool::weighted(0.2), any::<u8>(), any::<u8>(), any::<u8>())
         .prop_map(|(ty, width, nullable, key, localizable, range, cat, enums)| ColSeed { ty, width, nullable, key, localizable, range, cat, enums })
+}
+
+/// How the content of a write reaches the stream writer (pattern = `fill % 6`).
+pub fn piece_lengths(total: usize, fill: u8) -> Vec<usize> {
+    let mut out = Vec::new();
+    let mut left = total;
+    let mut push = |n: usize, left: &mut usize| {
+        let n = n.min(*left);
+        if n > 0 {
+            out.push(n);
+            *left -= n;
+        }
+    };
+    match fill % 6 {
+        0 | 1 => push(total, &mut left),
+        2 => {
+            let mut i = 0usize;
+            while left > 0 {
+                push(1 + (i * 5 + fill as usize) % 97, &mut left);
+                i += 1;
+            }
+        }
+        3 => {
+            push(1 + fill as usize % 50, &mut left);
+            push(total, &mut left);
+        }
+        4 => {
+            while left > 0 {
+                push(4096, &mut left);
+            }
+        }
+        _ => {
+            let mut i = 0usize;
+            while left > 0 {
+                push(if i % 2 == 0 { 3 + fill as usize % 100 } else { 4096 + (i * 1000) % 5000 }, &mut left);
+                i += 1;
+            }
+        }
+    }
+    if out.is_empty() {
+        out.push(0);
+    }
+    out
 }
 
 pub fn cond_seed() -> impl Strategy<Value = CondSeed> {
